@@ -243,3 +243,10 @@ CLAIMED["C17"] = dict(
     ref="5/C17")
 
 NOT_YET = "check not built yet in this round (see DESIGN.md section 11 for the build order); no claim is made"
+
+
+# Ages.tla (wave 13): long use and rare values
+_AGES = ' Ages.tla (a long-lived object in long use; Ageless holds for the intended design and fails, only after its resource is used up, for a memo ring whose evicted entry stays indexed, a wrapping operation counter and a budget that refusals use up) generates every schedule of three phases, each run on one real object with every phase scaled to hundreds up to tens of thousands of operations and validated by Trace_Ages.'
+for _p in ['C01', 'C02', 'C03', 'C04', 'C05', 'C06', 'C07', 'C08', 'C10', 'C11', 'C12', 'C13', 'C14', 'C16', 'C18', 'C19', 'C20']:
+    CLAIMED[_p]["text"] = CLAIMED[_p]["text"] + _AGES
+    CLAIMED[_p]["technique"] = CLAIMED[_p]["technique"] + " + TLC-generated schedules of long use (Ages.tla) scaled and replayed on a long-lived object"
